@@ -114,6 +114,11 @@ inductive Val where
   | cons (v : Val) (vs : Val)
   deriving Repr, DecidableEq, Inhabited
 
+/-- `len(data)` of a list value -/
+def vlen : Val → Nat
+  | .cons _ vs => vlen vs + 1
+  | _ => 0
+
 def Schema.getStruct (S : Schema) (name : String) : Option Struct :=
   S.structs.find? (·.name == name)
 
